@@ -340,6 +340,109 @@ def check_reuse(case):
     return out
 
 
+# ---- selectors behind a step that touched every resource ------------------------------------------------------
+# The package a selector is applied to is usually not a pristine source but the output of earlier steps. A step that
+# gave *every* resource the same new field (add_field / add_computed_field / unpivot over all resources) must not
+# tie the resources together: a later step restricted to one of them must still leave the others alone.
+SPREADS = {
+    'add_field': (lambda: S('add_field', 'w', 'string', '5'), 'w'),
+    'add_field_opts': (lambda: S('add_field', 'w', 'string', '5', title='W', constraints={'required': True}), 'w'),
+    'add_computed_field': (lambda: S('add_computed_field', [{'target': {'name': 'w', 'type': 'string'}, 'operation': 'constant',
+                                                              'with': '5'}]), 'w'),
+    'add_computed_two': (lambda: S('add_computed_field', [{'target': 'w', 'operation': 'constant', 'with': '5'},
+                                                           {'target': {'name': 'w2', 'type': 'string'}, 'operation': 'format',
+                                                            'with': '{s}'}]), 'w2'),
+    'unpivot': (lambda: S('unpivot', [{'name': 's', 'keys': {'key': 's'}}], [{'name': 'key', 'type': 'string'}],
+                          {'name': 'val', 'type': 'string'}), 'val'),
+    'unpivot_key': (lambda: S('unpivot', [{'name': 's', 'keys': {'key': 's'}}], [{'name': 'key', 'type': 'string'}],
+                              {'name': 'val', 'type': 'string'}), 'key'),
+    'set_type_all': (lambda: S('set_type', 's', type='string', constraints={'minLength': 1}, resources=None), 's'),
+    'update_schema_all': (lambda: {'op': 'update_schema', 'a': [None], 'k': {'missingValues': ['', 'NA']}}, 's'),
+}
+CHAIN_PROCS = {
+    'set_type': lambda f, sel: S('set_type', f, **_k(sel, type='integer')),
+    'set_type_opts': lambda f, sel: S('set_type', f, **_k(sel, type='string', title='changed', constraints={'maxLength': 9})),
+    'rename_fields': lambda f, sel: S('rename_fields', {f: 'renamed'}, **_k(sel)),
+    'delete_fields': lambda f, sel: S('delete_fields', [f], **_k(sel)),
+    'select_fields': lambda f, sel: S('select_fields', ['id', f], **_k(sel)),
+    'find_replace': lambda f, sel: S('find_replace', [{'name': f, 'patterns': [{'find': '.', 'replace': '7'}]}], **_k(sel)),
+    'update_schema': lambda f, sel: {'op': 'update_schema', 'a': [sel], 'k': {'missingValues': ['-']}},
+    'set_primary_key': lambda f, sel: S('set_primary_key', ['id', f], **_k(sel)),
+    'add_field': lambda f, sel: S('add_field', 'n', 'string', 'd', **_k(sel)),
+    'unpivot': lambda f, sel: S('unpivot', [{'name': f, 'keys': {'k2': f}}], [{'name': 'k2', 'type': 'string'}],
+                                {'name': 'v2', 'type': 'string'}, **_k(sel)),
+}
+CHAIN_SELECTORS = [('name', 'a'), ('name', 'ab'), ('list1', ['a.b']), ('int', 1), ('int', -1), ('list2', ['a', 'ab']), ('regex-star', 'a.+')]
+CHAIN_NAMES = ['a', 'ab', 'a.b']
+
+
+def _run_chain(names, *steps):
+    with core.scratch_dir() as d:
+        env = Env(d)
+        kind, st = run_steps([{'op': 'from_state', 'state': package(names)}] + list(steps), env)
+        if kind == 'exc':
+            return 'exc', st
+        return 'ok', observe(st, env.log)
+
+
+def check_chain(case):
+    spread, proc = case
+    mk, field = SPREADS[spread]
+    out = {'n': 0, 'keys': [], 'outcomes': {}, 'viol': [], 'states': 0, 'transitions': 0, 'traces': 0,
+           'sample': {'spread': spread, 'processor': proc, 'package': CHAIN_NAMES}}
+    bkind, base = _run_chain(CHAIN_NAMES, mk())
+    assert bkind == 'ok', (spread, base)
+    bnames, bobs, brest = base
+    alone = {}
+    for selkind, sel in CHAIN_SELECTORS:
+        want = spec_select(sel, CHAIN_NAMES)
+        witness = {'chain': [spread, proc], 'selkind': selkind, 'sel': sel}
+        label = '%s over all resources, then %s(%s, resources=%r) on package %r' % (spread, proc, field, sel, CHAIN_NAMES)
+        out['n'] += 1
+        out['traces'] += 1
+        out['transitions'] += 2
+        kind, got = _run_chain(CHAIN_NAMES, mk(), CHAIN_PROCS[proc](field, sel))
+        if kind == 'exc':
+            # the step must then fail on a selected resource alone as well (else the selector reached further)
+            k2, g2 = _run_chain([want[0]], mk(), CHAIN_PROCS[proc](field, None))
+            if k2 == 'ok':
+                out['viol'].append(('chain-crash/%s/%s' % (spread, proc), '%s: raises %s: %s' % (label, core.exc_sig(got), str(got)[:100]), witness))
+            out['outcomes']['chain:rejected'] = out['outcomes'].get('chain:rejected', 0) + 1
+            continue
+        out['keys'].append(core.h(['chain', spread, proc, sel]))
+        out['states'] += 1
+        gnames, gobs, grest = got
+        bad = None
+        if gnames != bnames:
+            bad = ('chain-order', 'resource list became %r' % gnames)
+        for n in CHAIN_NAMES:
+            if bad:
+                break
+            if n in want:
+                if n not in alone:
+                    k2, g2 = _run_chain([n], mk(), CHAIN_PROCS[proc](field, None))
+                    alone[n] = g2[1][n] if k2 == 'ok' else None
+                if alone[n] is not None and gobs[n] != alone[n]:
+                    bad = ('chain-selected', 'selected resource %r is not what the two steps do to it alone' % n)
+            elif gobs[n] != bobs[n]:
+                diff = 'descriptor' if gobs[n]['desc'] != bobs[n]['desc'] else 'rows'
+                bad = ('chain-untouched', 'the %s of unselected resource %r changed (%r -> %r)' %
+                       (diff, n, bobs[n]['desc']['schema'] if diff == 'descriptor' else bobs[n]['rows'],
+                        gobs[n]['desc']['schema'] if diff == 'descriptor' else gobs[n]['rows']))
+        if bad:
+            out['viol'].append(('%s/%s/%s' % (bad[0], spread, proc), '%s: %s' % (label, bad[1][:400]), witness))
+            out['outcomes']['chain:wrong'] = out['outcomes'].get('chain:wrong', 0) + 1
+        else:
+            out['outcomes']['chain:ok'] = out['outcomes'].get('chain:ok', 0) + 1
+    uniq, seen = [], set()
+    for v in out['viol']:
+        if v[0] not in seen:
+            seen.add(v[0])
+            uniq.append(v)
+    out['viol'] = uniq
+    return out
+
+
 def run(run):
     run.rule = ('full product processor(%d) x selector form(%d) x package(names over {a,ab,a.b,aXb}); a case is '
                 'non-trivial when the specified selection is non-empty; distinct by (processor, selector, package)'
@@ -355,11 +458,17 @@ def run(run):
     reuse_cases = [(p, k, sel) for p in REUSE_PROCS for k, sel in SELECTORS if k in ('none', 'name', 'regex-star', 'list2', 'int')]
     for res in run.map(check_reuse, reuse_cases, chunksize=4):
         run.absorb(res)
+    chain_cases = [(sp, p) for sp in SPREADS for p in CHAIN_PROCS]
+    for res in run.map(check_chain, chain_cases, chunksize=2):
+        run.absorb(res)
+    run.extra['chains'] = '%d spreading steps x %d field-level processors x %d selectors' % (len(SPREADS), len(CHAIN_PROCS), len(CHAIN_SELECTORS))
     run.extra['processors'] = sorted(PROCS)
     run.extra['packages'] = len(pk)
 
 
 def replay(w):
+    if 'chain' in w:
+        return [v for v in check_chain(tuple(w['chain']))['viol']]
     if 'reuse' in w:
         return check_reuse(tuple(w['reuse']))['viol']
     v, outcome, _ = check_one(w['proc'], w['selkind'], w['sel'], w['names'])
